@@ -1534,7 +1534,7 @@ constexpr unsigned caps_of()
     if (!LI::ALL_TRIVIAL) c |= CAP_NONTRIVIAL;
     if (LI::ANY_TRACKED) c |= CAP_TRACKED;
     if (LI::ANY_ALIGNED) c |= CAP_ALIGNED;
-    c |= CAP_COMPARE;
+    if (LI::COMPARES_BY_VALUE) c |= CAP_COMPARE;
     return c;
 }
 }  // namespace vf
